@@ -141,6 +141,15 @@ impl FlagCounts {
             }
         }
     }
+    pub fn add(&mut self, o: &FlagCounts) {
+        self.chip_trailers_seen += o.chip_trailers_seen;
+        self.busy_violations += o.busy_violations;
+        self.data_overrun += o.data_overrun;
+        self.transmission_in_fatal += o.transmission_in_fatal;
+        self.flushed_incomplete += o.flushed_incomplete;
+        self.strobe_extended += o.strobe_extended;
+        self.busy_transitions += o.busy_transitions;
+    }
     pub fn add_lane(&mut self, l: &LaneSpec) {
         for c in &l.chips {
             if !c.empty {
